@@ -44,8 +44,6 @@ def header(name, unary=False):
         w('//@   requires c != nil && vinv(value)')
     else:
         w('//@   requires c != nil && c.Overrides != nil && vinv(value1) && vinv(value2)')
-    if name in ('Equal', 'NotEqual'):
-        w('//@   requires value1.typ == Object ==> !isslice(value1.value)   -- an Object payload of an uncomparable Go type is outside the contract')
     w('//@   ensures[C06,C03] (result != nil) != (err != nil)')
     w('//@   ensures[C06] err == nil ==> vinv(result)')
     w('//@   assigns nothing')
